@@ -186,6 +186,16 @@ def _run_built(ctx: RunContext, built: dict, configs: list[dict], variables=None
     for st in built["steps"]:
         sspec = st["spec"]
         cfg = prepare_config(configs[sspec["cfg"]], ctx)
+        reuse = getattr(ctx, "shared_validated", None)
+        if reuse is not None:
+            # the same validated EnOptConfig object is used for several runs
+            from ropt.config.enopt import EnOptConfig
+
+            key = sspec["cfg"]
+            if key not in reuse:
+                reuse[key] = (EnOptConfig.model_validate(cfg, context=ctx.transforms), ctx.run_id)
+            cfg, first_run = reuse[key]
+            backend.ACTIVE[first_run] = ctx
         kwargs: dict[str, Any] = {"config": cfg}
         if ctx.transforms is not None:
             kwargs["transforms"] = ctx.transforms
@@ -220,7 +230,11 @@ def _run_built(ctx: RunContext, built: dict, configs: list[dict], variables=None
             if built["level"] > 0:
                 raise
         except Exception as exc:  # noqa: BLE001  - internal exception escaping the step
-            ctx.exits.append(("exception", st["index"], f"{type(exc).__name__}: {exc}"))
+            import re
+
+            # (temporary directory names are random: keep them out of the trace)
+            text = re.sub(r"/tmp/tmp[A-Za-z0-9_]+", "/tmp/<tmpdir>", f"{type(exc).__name__}: {exc}")
+            ctx.exits.append(("exception", st["index"], text))
             ctx.last_exception = exc
             if built["level"] > 0:
                 raise
@@ -245,6 +259,8 @@ def run_scenario(scn: dict, setup=None, shared: dict | None = None) -> RunContex
             pm = backend.make_plugin_manager()
             if shared is not None:
                 shared["pm"] = pm
+        if shared is not None and shared.get("reuse_validated"):
+            ctx.shared_validated = shared.setdefault("validated", {})
         if setup is not None:
             setup(ctx)
         ctx.fake = None
